@@ -74,6 +74,36 @@ fn gamma(a: Decimal) -> Option<Decimal> {
     }
 }
 
+/// a % b with the sign of the dividend, computed on the integer coefficients: `Decimal::checked_rem` rounds an
+/// operand when the two scales cannot be aligned within 96 bits, and then the remainder is wrong in every digit
+fn exact_rem(a: Decimal, b: Decimal) -> Option<Decimal> {
+    if b.is_zero() {
+        return None;
+    }
+    let (ma, mb) = (a.mantissa().unsigned_abs(), b.mantissa().unsigned_abs());
+    let (sa, sb) = (a.scale(), b.scale());
+    let magnitude = if sb >= sa {
+        // |a| * 10^sb = ma * 10^(sb - sa): reduce after every factor of ten (x < mb < 2^96, so 10 x fits)
+        let mut x = ma % mb;
+        for _ in 0..(sb - sa) {
+            x = (x * 10) % mb;
+        }
+        x
+    } else {
+        // |b| * 10^sa = mb * 10^(sa - sb); when that exceeds |a| * 10^sa the dividend is the remainder
+        match mb.checked_mul(10u128.pow(sa - sb)) {
+            Some(scaled) if scaled <= ma => ma % scaled,
+            _ => ma,
+        }
+    };
+    let signed = if a.is_sign_negative() {
+        -(magnitude as i128)
+    } else {
+        magnitude as i128
+    };
+    Decimal::try_from_i128_with_scale(signed, sa.max(sb)).ok()
+}
+
 fn out_of_range() -> Box<dyn error::Error> {
     "The result is not representable as a Decimal".into()
 }
@@ -136,9 +166,7 @@ pub fn eval(expr: Node) -> Result<Decimal, Box<dyn error::Error>> {
         Divide(expr1, expr2) => eval(*expr1)?
             .checked_div(eval(*expr2)?)
             .ok_or_else(undefined),
-        Modulo(expr1, expr2) => eval(*expr1)?
-            .checked_rem(eval(*expr2)?)
-            .ok_or_else(undefined),
+        Modulo(expr1, expr2) => exact_rem(eval(*expr1)?, eval(*expr2)?).ok_or_else(undefined),
         Negative(expr1) => Ok(-(eval(*expr1)?)),
         Abs(sub_expr) => Ok(eval(*sub_expr)?.abs()),
         Floor(sub_expr) => Ok(eval(*sub_expr)?.floor()),
